@@ -33,6 +33,8 @@ def digests_main(argv):
     mod = importlib.import_module('bsim.props.' + prop.lower())
     if hasattr(mod, 'worker_init'):
         mod.worker_init()
+    from . import interloper
+    interloper.calibrate()
     seeds = list(range(first, first + count))
     if rev:
         seeds.reverse()
